@@ -222,8 +222,22 @@ def _cut_time(base_t, kind, k):
     return base_t
 
 
+def _sync(coro):
+    """run a coroutine that never really waits"""
+    try:
+        coro.send(None)
+    except StopIteration as e:
+        return e.value
+    raise RuntimeError("HARNESS-ERROR: a state-reading action suspended")
+
+
 def _state_queries(state):
-    return {fid: fid in state.flow_id_states for fid in state.flow_configs}
+    """what the library's REAL state-reading actions answer for every flow of the program (the methods do not use `self`)"""
+    from nemoguardrails.actions.v2_x.generation import LLMGenerationActionsV2dotx as A
+    out = {}
+    for fid in state.flow_configs:
+        out[fid] = (_sync(A.check_if_flow_exists(None, state, fid)), _sync(A.check_if_flow_defined(None, state, fid)))
+    return out
 
 
 def _short(o):
